@@ -86,7 +86,10 @@ def replay(prop, path):
     return _verdict(prop, path, v[0].get("bad"), "final=%s" % r["final"])
   if prop == "C30" and "klass" in case:
     from harness import utildrive
-    r = utildrive.singleton_run(case["klass"], case["threads"], _policy(case["schedule"]))
+    if str(case["klass"]).startswith("declared "):
+      r = utildrive.real_singleton_run(case["klass"][len("declared "):], case["threads"], _policy(case["schedule"]))
+    else:
+      r = utildrive.singleton_run(case["klass"], case["threads"], _policy(case["schedule"]))
     v, _ = util.trace_validate("SingletonTrace", [{"tid": 0, "made": r["made"], "got": r["got"], "final": r["final"], "errors": r["errors"],
                                                    "outcome": r["outcome"], "done": r["done"]}])
     return _verdict(prop, path, v[0].get("bad"), "made=%s got=%s" % (r["made"], r["got"]))
